@@ -283,6 +283,7 @@ def run(ctx):
     track_table(ctx, "R07-c")
     width_accounting(ctx, "R07-e")
     per_line_reset(ctx, "R07-f")
+    skipped_ranges_per_file(ctx, "R07-g")
     # with R06-b: operational ⇒ exit 1
     import c06
     c06.exit_code_tables(ctx, "R07-d")
@@ -366,3 +367,42 @@ def per_line_reset(ctx, rid):
                         ["%s:%d" % (f.file, f.line)])
     r.instance(rid, "new_line resets the per-line state", "ok", "%s:%d" % (f.file, f.line), "%d paths" % n, nontrivial=True)
     r.floor(rid, n, 4, "paths of new_line")
+
+
+def skipped_ranges_per_file(ctx, rid):
+    """R07-g: the line checks of a file use the skipped ranges of that file only"""
+    p, r = ctx.p, ctx.r
+    r.rule(rid, "FormatContext::format_file: the skipped-range operand of format_lines derives from the `skipped_range` of the same "
+                "FmtVisitor whose `buffer` is being checked — never from FormatReport.non_formatted_ranges, which accumulates over "
+                "all files of the run (line numbers of skipped code in one file would exempt the same line numbers in the next)")
+    f = p.named("format_file", within="FormatContext")
+    if f is None:
+        r.undecidable(rid, "FormatContext::format_file not found")
+        return
+    n = 0
+    for c in f.calls():
+        if not c.name.endswith("formatting::format_lines") or len(c.args) < 3:
+            continue
+        n += 1
+        def fields_of(op):
+            if op[0] == "k":
+                return set(), set()
+            d = f.derived_from(op[1][0])
+            fl = {(x[0].rsplit("::", 1)[-1] if x[0] else None, x[2]) for x in d["fields"]}
+            for e in op[1][1]:
+                if isinstance(e, (list, tuple)) and e[0] == "f":
+                    fl.add((e[2].rsplit("::", 1)[-1] if e[2] else None, e[4]))
+            return fl, d["locals"]
+        bf, bl = fields_of(c.args[0])
+        sf, sl = fields_of(c.args[2])
+        own = ("FmtVisitor", "skipped_range") in sf
+        foreign = any(fld in ("non_formatted_ranges",) or adt == "FormatReport" for adt, fld in sf)
+        same_visitor = bool(bl & sl)
+        ok = own and not foreign and same_visitor
+        r.instance(rid, "format_lines skipped-range operand", "ok" if ok else "violation", c.loc(), str(sorted(map(str, sf)))[:120])
+        if not ok:
+            r.violation(rid, "format_file: format_lines is given skipped ranges that are not this file's",
+                        "the operand derives from %s (own visitor's skipped_range: %s, run-wide report: %s): ranges recorded for other "
+                        "files exempt lines of this one from the width / trailing-blank checks" % (sorted(map(str, sf))[:4], own, foreign),
+                        [c.loc()])
+    r.floor(rid, n, 1, "format_lines calls in format_file")
